@@ -52,6 +52,16 @@ def add_noise(e: ESpec):
             v.props = [('noise', 's', 'v%d' % k), ('n', 'i', k - 2)]
         if v.attr_layout == 'one':
             v.attr_layout = ['one', 'split', 'rev', 'revsplit'][(r >> 1) % 4]
+        # `default` / `transparent` are consumed by EnumString / Display / AsRefStr / IntoStaticStr / ToString only
+        if not (consumes & {'EnumString', 'Display', 'AsRefStr', 'IntoStaticStr', 'ToString', 'AsStaticStr'}) and len(v.ftypes) == 1:
+            ni = e.extra.setdefault('noise_items', {})
+            if r & 1 and not ni and not v.default:
+                ni[v.ident] = ['default']
+            elif r & 16 and not v.tr:
+                ni[v.ident] = ['transparent']
+        # non-string doc attributes must not disturb attribute collection
+        if r & 8:
+            e.extra.setdefault('variant_attrs', {}).setdefault(v.ident, []).append(['#[doc(hidden)]', '#[doc(alias = "noise")]'][k % 2])
     if 'EnumString' not in consumes and (h >> 40) & 1:
         e.ci = True
     e.extra['noise'] = True
